@@ -1350,6 +1350,8 @@ def run(ctx: common.Ctx):
     check_result_sharing(ctx, t)
     check_edge_replacement(ctx, t)
     check_edge_ladders(ctx, t)
+    from . import c13_extra_args
+    c13_extra_args.check_extra_args(ctx, build_graph, nested_specs)
     for th in THEOREMS[:4]:
         ctx.sample({"theorem": th})
     ctx.broken = sorted(set(ctx.broken))[:40]
